@@ -1,9 +1,17 @@
-(* C16 — scalar functions.  PLACEHOLDER until model/Funcs.v and proofs/FuncsProofs.v are
-   integrated: pins the generated name table of the documented scalar functions. *)
-From Coq Require Import List Bool String.
-From FS Require Import lib.Str gen.FuncGen.
+(* C16 - every documented scalar function computes its documented value for any argument.
+   Statements only: model/Funcs.v mirrors function::get_value arm by arm (compared with the real code on
+   every run); spec/FuncsSpec.v holds the documented meaning (character counts, White_Space trimming,
+   1-based / from-the-end substrings, leftmost non-overlapping replacement, RFC 4648, positional numerals,
+   first non-empty ...); the proofs are in proofs/FuncsProofs.v.  `e` is the record of unmodelled external
+   components (libm pow/ln/exp, full Unicode case mapping, chrono_english): the theorems hold for every e. *)
+From Coq Require Import String List Arith NArith ZArith Bool Lia Floats.
+From FS Require Import lib.Str lib.Res lib.Dec lib.F64 lib.Fin lib.Civil lib.Utf8 lib.Base64 gen.FuncGen
+  model.Datetime model.CaseTab model.Funcs spec.FuncsSpec proofs.DatetimeProofs.
 Import ListNotations.
+Open Scope N_scope.
+From FS Require Import proofs.FuncsProofs.
 
+(* the name table of the documented functions, as regenerated from the source *)
 Theorem C16_function_names :
   map (fun w => Function_from_str (s w)) ["lower"; "LCASE"; "upper"; "length"; "len"; "initcap"; "substr"; "SUBSTRING"; "replace"; "trim"; "ltrim"; "rtrim"; "concat"; "concat_ws";
       "coalesce"; "to_base64"; "base64"; "from_base64"; "bin"; "hex"; "oct"; "abs"; "power"; "pow"; "sqrt"; "log"; "ln"; "exp"; "least"; "greatest"; "format_time"; "year"; "month"; "day"; "dow"]%string
@@ -11,4 +19,281 @@ Theorem C16_function_names :
       FnCoalesce; FnToBase64; FnToBase64; FnFromBase64; FnBin; FnHex; FnOct; FnAbs; FnPower; FnPower; FnSqrt; FnLog; FnLn; FnExp; FnLeast; FnGreatest; FnFormatTime; FnYear; FnMonth; FnDay; FnDayOfWeek].
 Proof. vm_compute. reflexivity. Qed.
 
+
+Theorem C16_length_chars :
+  forall e now arg args,
+  get_value_gen e now FnLength arg args = Ok (VInt (Z.of_nat (length arg))).
+Proof. exact length_chars. Qed.
+
+Theorem C16_concat :
+  forall e now arg args,
+  get_value_gen e now FnConcat arg args = Ok (VStr (arg ++ List.concat args)).
+Proof. exact concat. Qed.
+
+Theorem C16_concat_ws :
+  forall e now sep args,
+  get_value_gen e now FnConcatWs sep args = Ok (VStr (join sep args)).
+Proof. exact concat_ws. Qed.
+
+Theorem C16_coalesce_first_nonempty :
+  forall e now arg args,
+  (exists x, get_value_gen e now FnCoalesce arg args = Ok (VStr x) /\ first_nonempty (arg :: args) (Some x))
+  \/ (get_value_gen e now FnCoalesce arg args = Ok VEmpty /\ first_nonempty (arg :: args) None).
+Proof. exact coalesce_first_nonempty. Qed.
+
+Theorem C16_ltrim_correct :
+  forall e now arg args,
+  exists r, get_value_gen e now FnLTrim arg args = Ok (VStr r) /\ ltrim_spec arg r.
+Proof. exact ltrim_correct. Qed.
+
+Theorem C16_rtrim_correct :
+  forall e now arg args,
+  exists r, get_value_gen e now FnRTrim arg args = Ok (VStr r) /\ rtrim_spec arg r.
+Proof. exact rtrim_correct. Qed.
+
+Theorem C16_trim_correct :
+  forall e now arg args,
+  exists r, get_value_gen e now FnTrim arg args = Ok (VStr r) /\ trim_spec arg r.
+Proof. exact trim_correct. Qed.
+
+Theorem C16_substr_model :
+  forall e now arg a p,
+  parse_i32 a = Some p ->
+  get_value_gen e now FnSubstring arg [a] = Ok (VStr (substr_spec p None arg))
+  /\ forall l n rest, parse_usize l = Some n -> 1 <= n ->
+       get_value_gen e now FnSubstring arg (a :: l :: rest) = Ok (VStr (substr_spec p (Some (N.to_nat n)) arg)).
+Proof. exact substr_model. Qed.
+
+Theorem C16_substr_no_args : forall e now arg, get_value_gen e now FnSubstring arg [] = Ok (VStr arg).
+Proof. exact substr_no_args. Qed.
+
+Theorem C16_substr_len0 :
+  forall e now arg a l p, parse_i32 a = Some p -> parse_usize l = Some 0 ->
+  get_value_gen e now FnSubstring arg [a; l] = get_value_gen e now FnSubstring arg [a].
+Proof. exact substr_len0. Qed.
+
+Theorem C16_substr_bad_position :
+  forall e now arg a rest, parse_i32 a = None ->
+  get_value_gen e now FnSubstring arg (a :: rest) = Exit2 (msg_substr_pos ++ [58; 32] ++ a).
+Proof. exact substr_bad_position. Qed.
+
+Theorem C16_substr_bad_length :
+  forall e now arg a l rest p, parse_i32 a = Some p -> parse_usize l = None ->
+  get_value_gen e now FnSubstring arg (a :: l :: rest) = Exit2 (msg_substr_len ++ [58; 32] ++ l).
+Proof. exact substr_bad_length. Qed.
+
+Theorem C16_replace_nonempty_needle :
+  forall e now arg from to rest y, from <> [] ->
+  (get_value_gen e now FnReplace arg (from :: to :: rest) = Ok (VStr y) <-> replace_spec from to arg y).
+Proof. exact replace_nonempty_needle. Qed.
+
+Theorem C16_replace_not_found :
+  forall e now arg from to rest, from <> [] -> find_sub from arg = false ->
+  get_value_gen e now FnReplace arg (from :: to :: rest) = Ok (VStr arg).
+Proof. exact replace_not_found. Qed.
+
+Theorem C16_replace_pieces :
+  forall from to x y, from <> [] -> replace_spec from to x y ->
+  exists ps, x = join from ps /\ y = join to ps /\ pieces_ok from ps.
+Proof. exact replace_pieces. Qed.
+
+Theorem C16_replace_empty_needle :
+  forall e now arg to rest,
+  get_value_gen e now FnReplace arg ([] :: to :: rest) = Ok (VStr (to ++ flat_map (fun c => c :: to) arg)).
+Proof. exact replace_empty_needle. Qed.
+
+Theorem C16_replace_arity :
+  forall e now arg args, (length args < 2)%nat ->
+  get_value_gen e now FnReplace arg args = Exit2 (msg_replace ++ [58; 32] ++ arg).
+Proof. exact replace_arity. Qed.
+
+Theorem C16_to_base64_spec_ok :
+  forall e now x, forallb valid_scalar x = true ->
+  get_value_gen e now FnToBase64 x [] = Ok (VStr (to_base64_spec x)).
+Proof. exact to_base64_spec_ok. Qed.
+
+Theorem C16_base64_inverse :
+  forall e now x, forallb valid_scalar x = true ->
+  exists enc, get_value_gen e now FnToBase64 x [] = Ok (VStr enc)
+           /\ get_value_gen e now FnFromBase64 enc [] = Ok (VStr x).
+Proof. exact base64_inverse. Qed.
+
+Theorem C16_lower_upper_ascii_idempotent :
+  forall e now x args, ascii x = true ->
+  get_value_gen e now FnLower x args = Ok (VStr (ascii_lower x))
+  /\ get_value_gen e now FnUpper x args = Ok (VStr (ascii_upper x))
+  /\ get_value_gen e now FnLower (ascii_lower x) args = Ok (VStr (ascii_lower x))
+  /\ get_value_gen e now FnUpper (ascii_upper x) args = Ok (VStr (ascii_upper x))
+  /\ get_value_gen e now FnLower (ascii_upper x) args = Ok (VStr (ascii_lower x))
+  /\ get_value_gen e now FnUpper (ascii_lower x) args = Ok (VStr (ascii_upper x)).
+Proof. exact lower_upper_ascii_idempotent. Qed.
+
+Theorem C16_lower_upper_caseless :
+  forall e now x args, forallb caseless x = true ->
+  get_value_gen e now FnLower x args = Ok (VStr x) /\ get_value_gen e now FnUpper x args = Ok (VStr x).
+Proof. exact lower_upper_caseless. Qed.
+
+Theorem C16_initcap_shape :
+  forall e now arg args, case_modelled arg = true ->
+  get_value_gen e now FnInitCap arg args = Ok (VStr (join [32] (map cap_word (split_ws arg))))
+  /\ Forall (fun w => w <> [] /\ forallb not_ws w = true) (split_ws arg)
+  /\ List.concat (split_ws arg) = filter not_ws arg
+  /\ (ascii arg = true ->
+      Forall (fun w => exists c r, w = c :: r /\ cap_word w = upper1 c :: ascii_lower r) (split_ws arg)).
+Proof. exact initcap_shape. Qed.
+
+Theorem C16_bin_hex_oct_roundtrip :
+  forall e now arg args z, Dec.parse_i64 arg = Some z ->
+  (exists o, get_value_gen e now FnBin arg args = Ok (VStr o) /\ numeral_of 2 (twos_complement_64 z) o)
+  /\ (exists o, get_value_gen e now FnHex arg args = Ok (VStr o) /\ numeral_of 16 (twos_complement_64 z) o)
+  /\ (exists o, get_value_gen e now FnOct arg args = Ok (VStr o) /\ numeral_of 8 (twos_complement_64 z) o).
+Proof. exact bin_hex_oct_roundtrip. Qed.
+
+Theorem C16_bin_hex_oct_not_a_number :
+  forall e now arg args, Dec.parse_i64 arg = None ->
+  get_value_gen e now FnBin arg args = Ok VEmpty /\ get_value_gen e now FnHex arg args = Ok VEmpty
+  /\ get_value_gen e now FnOct arg args = Ok VEmpty.
+Proof. exact bin_hex_oct_not_a_number. Qed.
+
+Theorem C16_abs_nonneg :
+  forall e now arg args v, get_value_gen e now FnAbs arg args = Ok (VFloat v) ->
+  sf_nonneg (Prim2SF v) /\ no_minus (v_show (VFloat v)).
+Proof. exact abs_nonneg. Qed.
+
+Theorem C16_abs_not_a_number : forall e now arg args, parse_f64 arg = None -> get_value_gen e now FnAbs arg args = Ok VEmpty.
+Proof. exact abs_not_a_number. Qed.
+
+Open Scope float_scope.
+Theorem C16_least_greatest_bounds :
+  forall e now arg args v, parse_f64 arg = Some v ->
+  Forall (fun x => is_nan x = false) (v :: parsed args) ->
+  (exists r, get_value_gen e now FnLeast arg args = Ok (VFloat r)
+             /\ In r (v :: parsed args) /\ lower_bound r (v :: parsed args))
+  /\ (exists r, get_value_gen e now FnGreatest arg args = Ok (VFloat r)
+             /\ In r (v :: parsed args) /\ upper_bound r (v :: parsed args)).
+Proof. exact least_greatest_bounds. Qed.
+
+Theorem C16_least_not_a_number :
+  forall e now arg args, parse_f64 arg = None ->
+  get_value_gen e now FnLeast arg args = Ok VEmpty /\ get_value_gen e now FnGreatest arg args = Ok VEmpty.
+Proof. exact least_not_a_number. Qed.
+
+Close Scope float_scope.
+Theorem C16_format_time_units :
+  forall e now arg args n, arg <> [] -> parse_u64 arg = Some n ->
+  let '(d, h, m, sc) := dhms n in
+  get_value_gen e now FnFormatTime arg args =
+    Ok (VStr (match filter (fun p => 0 <? fst p) [(d, unit_d); (h, unit_h); (m, unit_m); (sc, unit_s)] with
+              | [] => [48; 0x3BC; 115]
+              | l => join [44] (map show_part l)
+              end))
+  /\ d * 86400 + h * 3600 + m * 60 + sc = n /\ h < 24 /\ m < 60 /\ sc < 60.
+Proof. exact format_time_units. Qed.
+
+Theorem C16_format_time_bad :
+  forall e now arg args, arg <> [] -> parse_u64 arg = None ->
+  get_value_gen e now FnFormatTime arg args = Exit2 (msg_format_time ++ [58; 32] ++ arg).
+Proof. exact format_time_bad. Qed.
+
+Theorem C16_format_time_empty : forall e now args, get_value_gen e now FnFormatTime [] args = Ok VEmpty.
+Proof. exact format_time_empty. Qed.
+
+Open Scope Z_scope.
+Theorem C16_dow_range :
+  forall e now arg args k,
+  get_value_gen e now FnDayOfWeek arg args = Ok (VInt k) -> 1 <= k <= 7.
+Proof. exact dow_range. Qed.
+
+Theorem C16_year_month_day :
+  forall e now y m d args,
+  0 <= y <= 9999 -> valid_date y m d = true ->
+  let arg := render_lit PDay y m d 0 0 0 45 in
+  get_value_gen e now FnYear arg args = Ok (VInt y)
+  /\ get_value_gen e now FnMonth arg args = Ok (VInt m)
+  /\ get_value_gen e now FnDay arg args = Ok (VInt d)
+  /\ get_value_gen e now FnDayOfWeek arg args = Ok (VInt (number_from_sunday (days_from_civil y m d)))
+  /\ 1 <= number_from_sunday (days_from_civil y m d) <= 7.
+Proof. exact year_month_day. Qed.
+
+Close Scope Z_scope.
+Theorem C16_wrong_kind_never_panics :
+  forall e now f arg args,
+  modelled f = true -> ext_sane e ->
+  no_crash (get_value_gen e now f arg args).
+Proof. exact wrong_kind_never_panics. Qed.
+
+Theorem C16_date_fns_outcome :
+  forall e now f arg args, ext_sane e -> is_date_fn f = true ->
+  match get_value_gen e now f arg args with
+  | Ok (VInt _) | Ok VEmpty => True
+  | Exit2 m => starts_with msg_unmodelled m = true
+  | _ => False
+  end.
+Proof. exact date_fns_outcome. Qed.
+
+Theorem C16_date_fn_former_crashes :
+  forall now,
+  get_value now FnYear (s "+a") [] = Ok VEmpty
+  /\ get_value now FnDayOfWeek (s "-x") [] = Ok VEmpty
+  /\ get_value now FnDay (s "+1.5") [] = Ok VEmpty
+  /\ get_value now FnMonth [0x661; 0x662] [] = Ok VEmpty
+  /\ is_unmodelled (get_value now FnMonth [0x662; 0x660; 0x662; 0x663; 45; 0x661; 0x662; 45; 0x661; 0x661] []) = true
+  /\ get_value now FnYear (s "2023-12-11 " ++ [0x661]) [] = Ok (VInt 2023).
+Proof. exact date_fn_former_crashes. Qed.
+
+Theorem C16_power_log_bad_argument :
+  forall e now arg a rest v, parse_f64 arg = Some v -> parse_f64 a = None ->
+  get_value_gen e now FnPower arg (a :: rest) = Exit2 (msg_power ++ [58; 32] ++ a)
+  /\ get_value_gen e now FnLog arg (a :: rest) = Exit2 (msg_log ++ [58; 32] ++ a).
+Proof. exact power_log_bad_argument. Qed.
+
+Theorem C16_power_log_first_not_a_number :
+  forall e now arg args, parse_f64 arg = None ->
+  get_value_gen e now FnPower arg args = Ok VEmpty /\ get_value_gen e now FnLog arg args = Ok VEmpty.
+Proof. exact power_log_first_not_a_number. Qed.
+
+Theorem C16_power_default_exponent :
+  forall e now arg v, parse_f64 arg = Some v ->
+  get_value_gen e now FnPower arg [] = Ok (VFloat 1%float).
+Proof. exact power_default_exponent. Qed.
+
 Print Assumptions C16_function_names.
+Print Assumptions C16_length_chars.
+Print Assumptions C16_concat.
+Print Assumptions C16_concat_ws.
+Print Assumptions C16_coalesce_first_nonempty.
+Print Assumptions C16_ltrim_correct.
+Print Assumptions C16_rtrim_correct.
+Print Assumptions C16_trim_correct.
+Print Assumptions C16_substr_model.
+Print Assumptions C16_substr_no_args.
+Print Assumptions C16_substr_len0.
+Print Assumptions C16_substr_bad_position.
+Print Assumptions C16_substr_bad_length.
+Print Assumptions C16_replace_nonempty_needle.
+Print Assumptions C16_replace_not_found.
+Print Assumptions C16_replace_pieces.
+Print Assumptions C16_replace_empty_needle.
+Print Assumptions C16_replace_arity.
+Print Assumptions C16_to_base64_spec_ok.
+Print Assumptions C16_base64_inverse.
+Print Assumptions C16_lower_upper_ascii_idempotent.
+Print Assumptions C16_lower_upper_caseless.
+Print Assumptions C16_initcap_shape.
+Print Assumptions C16_bin_hex_oct_roundtrip.
+Print Assumptions C16_bin_hex_oct_not_a_number.
+Print Assumptions C16_abs_nonneg.
+Print Assumptions C16_abs_not_a_number.
+Print Assumptions C16_least_greatest_bounds.
+Print Assumptions C16_least_not_a_number.
+Print Assumptions C16_format_time_units.
+Print Assumptions C16_format_time_bad.
+Print Assumptions C16_format_time_empty.
+Print Assumptions C16_dow_range.
+Print Assumptions C16_year_month_day.
+Print Assumptions C16_wrong_kind_never_panics.
+Print Assumptions C16_date_fns_outcome.
+Print Assumptions C16_date_fn_former_crashes.
+Print Assumptions C16_power_log_bad_argument.
+Print Assumptions C16_power_log_first_not_a_number.
+Print Assumptions C16_power_default_exponent.
